@@ -14,6 +14,7 @@ import (
 	"github.com/bluenviron/gomavlib/v3/pkg/message"
 
 	"verifharness/fake"
+	"verifharness/ref"
 	"verifharness/vh"
 )
 
@@ -25,6 +26,9 @@ func c15apiMix(rep *vh.Report, seed uint64, idx int) {
 	r := vh.Sub(seed, fmt.Sprintf("c15-mix-%d", idx))
 	hookReset(r.U64(), true, true)
 	k := 3 + r.Intn(2)
+	if idx%3 == 2 {
+		k = 64 // many channels: their randomly drawn link ids collide with near certainty
+	}
 	var trs []*fake.Transport
 	var eps []gomavlib.EndpointConf
 	for i := 0; i < k; i++ {
@@ -35,7 +39,7 @@ func c15apiMix(rep *vh.Report, seed uint64, idx int) {
 	port := freeTCPPort()
 	eps = append(eps, gomavlib.EndpointTCPServer{Address: fmt.Sprintf("127.0.0.1:%d", port)})
 	var outKey *frame.V2Key
-	if r.Chance(1, 2) {
+	if r.Chance(1, 2) || k == 64 {
 		outKey = frame.NewV2Key(r.Bytes(32))
 	}
 	node := &gomavlib.Node{Endpoints: eps, Dialect: testDialect, OutVersion: gomavlib.V2, OutSystemID: 51, OutKey: outKey,
@@ -91,12 +95,20 @@ func c15apiMix(rep *vh.Report, seed uint64, idx int) {
 	}()
 	// incoming traffic on the custom links: frames (v1 and v2) and ArduPilot heartbeats from new senders on >= 3 channels at once
 	for ti, tr := range trs {
+		if ti >= 6 {
+			break
+		}
 		wg.Add(1)
 		go func(ti int, tr *fake.Transport) {
 			defer wg.Done()
 			for i := 0; atomic.LoadInt32(&stop) == 0; i++ {
 				tr.Feed(uidFrame(uint64(ti)<<32|uint64(i), byte(i), 9, i%3 == 0, nil, 0))
 				tr.Feed(hbFrame(byte(1+i%250), byte(1+(i/250)%250), 3, uint32(i)))
+				if i%4 == 1 {
+					// a frame whose id is not in the node's dialect, with a payload: forwarded as it is by the consumer
+					u := &ref.FrameSpec{Version: 2, Seq: byte(i), Sys: 7, Comp: 7, MsgID: 77777, Payload: []byte{1, 2, 3, 4, 5, 6, 7, 8, 9, 10, 11, 12, byte(i)}, Checksum: uint16(i)}
+					tr.Feed(ref.Serialize(u))
+				}
 				if ti == 0 && i%40 == 39 {
 					tr.FeedError(errSession) // the channel closes and re-opens
 				}
@@ -184,7 +196,7 @@ func TestC15(t *testing.T) {
 	aux := vh.NewReport("C15-aux") // findings of the re-used workloads belong to their own properties
 	prev := gomavlib.VerifSetReconnectPeriod(60 * time.Millisecond)
 	defer gomavlib.VerifSetReconnectPeriod(prev)
-	n := vh.Pick(5, 60)
+	n := vh.Pick(8, 240)
 	for i := 0; i < n; i++ {
 		c15apiMix(rep, seed, i)
 		switch (i + shard) % 5 {
